@@ -199,6 +199,40 @@ def _inline_combinator(caller, bi, kind, closure_fn, caps):
     return True
 
 
+def _inline_for_each(caller, bi, closure_fn, caps):
+    """`dst = iter.for_each(closure)`  ->  `loop { match Iterator::next(&mut iter) { Some(x) => <closure body>(x), None => break } }`"""
+    blk = caller["blocks"][bi]
+    c = blk["term"][1]
+    target, dst, line = c.get("t"), c["dst"], c.get("line")
+    it = c["args"][0]
+    if target is None or it[0] not in ("c", "m") or it[1]["p"]: return False
+    if any(cap[0] not in ("c", "m") for cap in caps) or closure_fn.get("argc") != 2: return False
+    il = it[1]["l"]
+    lo = len(caller["locals"]); bo = len(caller["blocks"])
+    for l in closure_fn["locals"]:
+        caller["locals"].append(copy.deepcopy(l))
+    n_cl = len(closure_fn["blocks"])
+    l_ref = len(caller["locals"]); caller["locals"].append({"ty": "&mut " + caller["locals"][il]["ty"], "head": "&", "name": None})
+    l_opt = len(caller["locals"]); caller["locals"].append({"ty": "std::option::Option<" + closure_fn["locals"][2]["ty"] + ">", "head": "std::option::Option", "name": None})
+    l_dis = len(caller["locals"]); caller["locals"].append({"ty": "isize", "head": "isize", "name": None})
+    head_b, test_b, some_b, exit_b = bo + n_cl, bo + n_cl + 1, bo + n_cl + 2, bo + n_cl + 3
+    for cb in closure_fn["blocks"]:
+        nb = {"cleanup": cb["cleanup"], "stmts": [_subst_captures(_remap(s_, lo, bo), lo + 1, caps) for s_ in cb["stmts"]]}
+        t = cb["term"]
+        nb["term"] = ["Goto", head_b] if t[0] == "Return" else _subst_captures(_remap_term(copy.deepcopy(t), lo, bo), lo + 1, caps)
+        caller["blocks"].append(nb)
+    nxt = {"f": "std::iter::Iterator::next", "fpath": "std::iter::Iterator::next", "fname": "next", "fcrate": "core", "trait": "std::iter::Iterator", "gargs": [],
+           "args": [["m", {"l": l_ref, "p": []}]], "dst": {"l": l_opt, "p": []}, "t": test_b, "uw": None, "line": line, "exp": False, "synthetic_loop": True}
+    caller["blocks"].append({"cleanup": False, "stmts": [["A", {"l": l_ref, "p": []}, ["Ref", "Mut", {"l": il, "p": []}], line]], "term": ["Call", nxt]})                     # head_b
+    caller["blocks"].append({"cleanup": False, "stmts": [["A", {"l": l_dis, "p": []}, ["Discr", {"l": l_opt, "p": []}], line]],
+                             "term": ["Switch", ["m", {"l": l_dis, "p": []}], [[0, exit_b]], some_b, line, "isize"]})                                                         # test_b
+    payload = {"l": l_opt, "p": [["d", "Some", 1], ["f", "0", 0, "std::option::Option"]]}
+    caller["blocks"].append({"cleanup": False, "stmts": [["A", {"l": lo + 2, "p": []}, ["Use", ["m", payload]], line]], "term": ["Goto", bo]})                              # some_b
+    caller["blocks"].append({"cleanup": False, "stmts": [["A", copy.deepcopy(dst), ["Agg", ["Tuple"], []], line]], "term": ["Goto", target]})                               # exit_b
+    blk["term"] = ["Goto", head_b]
+    return True
+
+
 def inline_new_closures(d, ref):
     """closures that did not exist on the confirmed tree and are handed straight to Option / Result `map` / `and_then` are expanded in place (the match the
     combinator stands for, with the closure body in its value arm): `opt.map(|x| ..)` written instead of `if let Some(x) = opt {..}` keeps one shape."""
@@ -220,7 +254,8 @@ def inline_new_closures(d, ref):
             t = f["blocks"][bi]["term"]
             if t[0] != "Call" or len(t[1]["args"]) != 2: continue
             direct = (t[1].get("f") or "") in FN_CALLS
-            if not direct and (t[1].get("f") or "") not in COMBINATORS: continue
+            foreach = (t[1].get("f") or "") == "std::iter::Iterator::for_each" or (t[1].get("fname") == "for_each" and (t[1].get("trait") or "").endswith("Iterator"))
+            if not direct and not foreach and (t[1].get("f") or "") not in COMBINATORS: continue
             lit = _closure_literal(f, t[1]["args"][0 if direct else 1])
             if lit is None: continue
             ck, caps = lit
@@ -228,6 +263,10 @@ def inline_new_closures(d, ref):
             if ck in known and count_now.get(owner, 0) == count_ref.get(owner, 0): continue          # a closure the rules already know
             cf = by_key.get(ck)
             if not cf or len(cf) != 1 or cf[0].get("is_coroutine") or len(cf[0]["blocks"]) > MAX_BLOCKS: continue
+            if foreach:
+                if _inline_for_each(f, bi, cf[0], caps):
+                    notes.append(f"expanded for_each({ck.split('::', 1)[-1][-60:]}) into the loop it stands for (closure not part of the function set the rules were confirmed on)")
+                continue
             if direct:
                 if _inline_closure_call(f, bi, cf[0], caps):
                     notes.append(f"expanded the call of closure {ck.split('::', 1)[-1][-60:]} in place (closure not part of the function set the rules were confirmed on)")
